@@ -89,12 +89,14 @@ def enc_name(s):
 
 
 def default_text(tkind):
-    return {'int': '0', 'str': 'None', 'bool': 'False', 'ref': 'None', 'sdt': "'hello'", 'enum': 'lit_a'}[tkind]
+    return {'int': '0', 'str': 'None', 'bool': 'False', 'ref': 'None', 'sdt': "'hello'", 'enum': 'lit_a=0'}[tkind]     # 'enum': repr of the literal OBJECT, as inspect.signature shows it
 
 
 def enc_param(p, intern):
     pname, required, tkind = p
-    return enc_name(pname) + [1 if required else 0, 1 if tkind == 'enum' else 0, intern.tok(default_text(tkind))]
+    # second token: 1 = 'the default is pasted as text that is not an expression' (Operations.DEnum).  pyecore no longer pastes
+    # defaults into the source (fix 3896d2a: placeholders + __defaults__): every default, enumeration literals included, is a value
+    return enc_name(pname) + [1 if required else 0, 0, intern.tok(default_text(tkind))]
 
 
 def enc_op(op, intern):
